@@ -48,6 +48,8 @@
 
 #include <exception>
 
+#include <unifex/detail/verif_hooks.hpp>
+
 #include <unifex/detail/prologue.hpp>
 
 namespace unifex {
@@ -472,7 +474,9 @@ struct _sr_thunk_promise_base : _promise_base {
     _sr_thunk_promise_base* self;
 
     void set_value(bool) noexcept {
+      UNIFEX_VERIF_YIELD("coro.sr.op_fsub");
       if (self->refCount_.fetch_sub(1, std::memory_order_acq_rel) == 1) {
+        UNIFEX_VERIF_YIELD("coro.sr.op_who");
         UNIFEX_ASSERT(self->whoToContinue_);
 
         if (self->frame_) {
@@ -498,6 +502,7 @@ struct _sr_thunk_promise_base : _promise_base {
     _sr_thunk_promise_base* self;
 
     void operator()() noexcept {
+      UNIFEX_VERIF_YIELD("coro.sr.cb_fadd");
       if (self->refCount_.fetch_add(1, std::memory_order_relaxed) == 0) {
         return;
       }
@@ -550,11 +555,13 @@ struct _sr_thunk_promise_base : _promise_base {
         whoToContinue == continuation_.handle() ||
         whoToContinue == continuation_.done_handle());
 
+    UNIFEX_VERIF_YIELD("coro.sr.fin_destruct");
     callback_.destruct();
 
     // whoToContinue_ needs to be written before we decrement the refcount
     // to ensure that we synchronize this write with the corresponding
     // read in the deferred stop callback's completion
+    UNIFEX_VERIF_YIELD("coro.sr.fin_who");
     whoToContinue_ = whoToContinue;
 
     // deactivate our async stack frame before decrementing the refcount
@@ -569,6 +576,7 @@ struct _sr_thunk_promise_base : _promise_base {
 
     // if we're last to complete, continue our continuation; otherwise do
     // nothing and wait for the async stop request to do it
+    UNIFEX_VERIF_YIELD("coro.sr.fin_fsub");
     if (refCount_.fetch_sub(1, std::memory_order_acq_rel) == 1) {
       frameState.restore_frame_state();
 
